@@ -15,7 +15,7 @@ CLASSES = {
     '_queue': 'HeapQ', '_event': 'Event', '_seq': 'int', '_resolution': 'real', '_time_source': 'TimeSource',
     '_worker': 'any',
     # ghost: the queue's clock; the entries whose action has been started
-    'g_clock': 'real', 'g_ran': 'set[any]'}, ghost=['g_clock', 'g_ran']),
+    'g_clock': 'real', 'g_ran': 'set[any]', 'g_spawned': 'int'}, ghost=['g_clock', 'g_ran', 'g_spawned']),
 }
 
 GLOBALS = {
@@ -71,7 +71,9 @@ FUNCTIONS = {
     locals={'timeout_args': 'TimerEntry'},
     guar=['TimerClients'],
     requires=['allocated(self._queue)', 'allocated(self._event)', 'self._queue.g_mem != self.g_ran'],
-    ensures=[],
+    # on every normal exit the action has been queued (nothing runs, and nothing is dropped, outside the queue)
+    ensures=['not subset(self._queue.g_mem, old(setof(self._queue.g_mem)))', 'subset(old(setof(self._queue.g_mem)), self._queue.g_mem)',
+             'self.g_spawned == old(self.g_spawned)'],
     raises={'Exception': dict(when='action is None', ensures=['unchanged("set[TimerEntry]")', 'unchanged("TimerQueue._seq")', 'unchanged("Event.flag")'])},
     modifies=['set[TimerEntry]', 'TimerEntry.cancelled', 'TimerEntry.action', 'TimerEntry.deadline', 'TimerEntry.seq',
               'TimerQueue._seq', 'Event.flag', '$cls'],
@@ -114,13 +116,13 @@ FUNCTIONS.update({
     cls='TimerQueue', conc='TimerClients', guar=['TimerShared'], no_exit=True,
     requires=['allocated(self._queue)', 'allocated(self._event)'],
     ensures=[],
-    modifies=['set[TimerEntry]', 'set[any]', 'Event.flag', 'TimerQueue.g_clock', 'TimerEntry.cancelled', 'TimerEntry.action',
+    modifies=['set[TimerEntry]', 'set[any]', 'Event.flag', 'TimerQueue.g_clock', 'TimerQueue.g_spawned', 'TimerEntry.cancelled', 'TimerEntry.action',
               'TimerEntry.deadline', 'TimerEntry.seq', 'TimerQueue._seq', '$cls'],
     allocates='any',
     locals={'action': 'any'},
     loops={0: dict(
       invariant=_TQ_INV + ['self.g_clock >= old(self.g_clock)'],
-      modifies=['set[TimerEntry]', 'set[any]', 'Event.flag', 'TimerQueue.g_clock', 'TimerEntry.cancelled', 'TimerEntry.action',
+      modifies=['set[TimerEntry]', 'set[any]', 'Event.flag', 'TimerQueue.g_clock', 'TimerQueue.g_spawned', 'TimerEntry.cancelled', 'TimerEntry.action',
                 'TimerEntry.deadline', 'TimerEntry.seq', 'TimerQueue._seq', '$cls'],
       allocates='any')},
     yields=[
@@ -144,7 +146,7 @@ FUNCTIONS.update({
         'prove(not g_popped.cancelled, "cancelled-never-runs")',
         'prove(not (g_popped in self.g_ran), "at-most-once")',
         'prove(forall_ref(o, TimerEntry, implies(o in self._queue.g_mem, qle(g_popped, o))), "in-deadline-then-schedule-order")',
-        'self.g_ran.add(g_popped)',
+        'self.g_ran.add(g_popped)', 'self.g_spawned = self.g_spawned + 1',
       ]},
     ],
     props=['C10'],
